@@ -4,12 +4,19 @@ import json, os
 V = os.path.dirname(os.path.dirname(os.path.abspath(__file__)))
 props = [json.loads(l) for l in open(os.path.join(V, "properties.jsonl"))]
 
-CHECKS = {
- "C01": dict(category="model_checking", design_ref="DESIGN.md §5 C01",
-   text="TLC enumerates every forest/root list/depth window within the bound (MC_C01); each scenario is replayed in bfs and dfs mode against the real binary and every recorded behaviour is validated by the TLA+ judge (Judge_C01: exact set, no duplicate, bfs level-monotone, dfs subtree-contiguous). The walker mechanism is model-checked against the same Prop definitions for every readdir order (Walker).",
-   note="Trusted: TLC, World.tla, the driver's materialisation, lstat inode numbers as row identity. Bounded: forests up to 5 nodes (thorough: 6), windows to depth+2.",
-   technique="TLA+ scenario enumeration (TLC) + replay into the binary + TLA+ trace judge"),
-}
+import importlib, sys
+sys.path.insert(0, V)
+CHECKS = {}
+for p in props:
+    try:
+        m = importlib.import_module("driver.props." + p["id"].lower())
+    except ModuleNotFoundError:
+        continue
+    if not hasattr(m, "MANIFEST"):
+        continue
+    c = dict(m.MANIFEST)
+    c["category"] = m.LEVEL
+    CHECKS[p["id"]] = c
 
 checks = []
 for pid, c in CHECKS.items():
